@@ -198,6 +198,20 @@ Proof.
   apply decode_name_flat; assumption.
 Qed.
 
+Theorem pname_nc_dec_complete : dec_complete pname_nc_dec.
+Proof.
+  intros pre n post lim Hv H1 H2. unfold pname_nc_dec, parse_ref.
+  assert (Hf : (length n < PARSE_FUEL)%nat).
+  { pose proof (total_bound pre post n lim Hv H1 H2) as Ht. pose proof (labels_count n) as Hc.
+    unfold W in Ht. unfold PARSE_FUEL. lia. }
+  pose proof (parse_labels_flat pre post n lim Hv H1 H2 n [] PARSE_FUEL eq_refl Hf) as Hp.
+  rewrite W_nil, N.add_0_r in Hp. rewrite Hp. cbn [bind pn_compressed].
+  unfold pname_labels. cbn [pn_pos pn_len pn_end].
+  pose proof (iter_labels_flat pre post n lim Hv H1 H2 n [] PARSE_FUEL [] eq_refl Hf) as Hi.
+  rewrite W_nil, N.add_0_r in Hi. rewrite Hi.
+  cbn [bind fst rev app]. rewrite len_wire_abs. f_equal. f_equal. unfold W. lia.
+Qed.
+
 Example pname_dec_example :
   pname_dec ([7;7] ++ wire_abs [[119;119;119]; [97]] ++ [1;2]) 2 9 = Ok ([[119;119;119]; [97]], 9).
 Proof. vm_compute. reflexivity. Qed.
